@@ -400,6 +400,10 @@ REGISTRY["C17"]["teq"].append({"engine": "mutimg", "quick": {"seedoff": 1717}, "
                                 "nontrivial": lambda case, res: not res.startswith("err invalid-metadata") and not res.startswith("fresh") and not res.startswith("note"),
                                 "distinct_key": lambda case, res: res + case.split("mut=")[-1],
                                 "what": "the same mutated images opened by a build of /repo with integer-overflow checks on (what an application's debug build does: `-C overflow-checks=on`): arithmetic on values that a damaged file controls -- lengths, counts, sectors, journal generations at the top of their range -- must not panic; the outcome must equal Model.Recovery.open_image as in the release build"})
+REGISTRY["C17"]["teq"].append({"engine": "migrate", "quick": {"n": 3, "damage": 9, "seedoff": 1716}, "thorough": {"n": 40, "damage": 9, "seedoff": 1716}, "oracle": True, "mismatch_is_failure": False, "timeout": 3400,
+                                "nontrivial": lambda case, res: "marker-across" in case,
+                                "distinct_key": lambda case, res: res + case.split("src=")[-1],
+                                "what": "the READ-ONLY open again, every source carrying an ACTIVE journal of a crashed batch plus a valid retirement marker in front of a journaled extent that reaches across it (the journal-virtualising scan jumps over a journaled extent without ever standing inside it)"})
 REGISTRY["C17"]["teq"].append({"engine": "migrate", "quick": {"n": 4, "seedoff": 1715}, "thorough": {"tier": "thorough", "seedoff": 1715}, "oracle": True, "mismatch_is_failure": False, "timeout": 3400,
                                 "nontrivial": lambda case, res: "+" in case.split("src=")[-1],
                                 "distinct_key": lambda case, res: res + case.split("src=")[-1],
